@@ -1,3 +1,4 @@
 import Adc.Syntax
 import Adc.Canon
 import Adc.Steps
+import Adc.Wick
